@@ -186,7 +186,7 @@ CONFIGS_THOROUGH = ["all", "default"]
 EXPLANATION = ("C14 (independence of backend and node cache): decides that the node cache is written only by to_node_cache and infos_to_nodes (R1), that what enters it is exactly node_from_bytes(index, "
                "storage bytes), never blank nodes, misses, changeset / unflushed / proof nodes, and that it is seeded with the roots read from storage (R2), that a cache miss falls through to the "
                "normal lookup and a hit returns the cached node for the requested index (R3), and that no code outside Storage::new_memory / new_disk names a concrete backend or inspects a backend's "
-               "dynamic type, each store mapping to its own trait object (R4), and that randomness / clocks / environment are read only by key generation, the flush cadence depends only on the core's own counters and signing is the deterministic Ed25519 signer (R5), and that `overwrite` empties each of the four stores (the store tested is the store truncated, and nothing but `overwrite` and the store's own length decides it) and every Storage field holds the backend created for its own store (R6).")
+               "dynamic type, each store mapping to its own trait object (R4), and that randomness / clocks / environment are read only by key generation, the flush cadence depends only on the core's own counters and signing is the deterministic Ed25519 signer (R5), and that `overwrite` empties each of the four stores (the store tested is the store truncated, and nothing but `overwrite` and the store's own length decides it) and every Storage field holds the backend created for its own store (R6); the functions that answer in passes give no answer while a read instruction is pending (R7); and every caller of a tree pass function answers a Left(instructions) by reading and calling again — nothing but `?` leaves that loop — so that a node evicted from the cache between two passes costs one more pass, not the call (R8).")
 NOT_DECIDED = "byte identity of files across backends; hole punching / del semantics inside random-access-disk; effects of eviction; determinism of flush cadence (skip_flush_count is a plain counter) and of Ed25519 signatures (library)."
 ASSUMPTIONS = ["moka returns only values that were inserted under the same key", "tree nodes on disk are immutable once written except by truncation"]
 
@@ -290,3 +290,98 @@ def r6(ctx, prop=P, rule="C14.R6"):
 
 
 RULES.append(r6)
+
+
+def read_until_complete(ctx, prop, rule):
+    """A tree operation is computed in passes: a pass that does not find a node in memory returns
+    read instructions (Left) and the caller reads them and asks again.  Whether a node is in memory
+    depends on the node cache — and a node the first pass found there can be gone in the next (a
+    cache of a few nodes, a time to live, or the default cache on a core with more nodes than it
+    holds).  A caller that allows a fixed number of passes and answers a further Left with an error
+    therefore fails exactly where the same history without the cache succeeds (defect D23).
+    Clause: at every call of a pass function from a function that performs the reads, the Left
+    outcome leads back to a call of the same function; on the way the only way out is the
+    propagation of an error some other call returned — no error or answer is made up there."""
+    G = cg(ctx)
+    node_users = set()
+    rev = {}
+    for a, bs in G.edges.items():
+        for b in bs:
+            rev.setdefault(b, set()).add(a)
+    st = [MT_NODE]
+    while st:
+        x = st.pop()
+        if x in node_users:
+            continue
+        node_users.add(x)
+        st.extend(rev.get(x, ()))
+    def instr_ret(fx):
+        rt = fx.body.locals[0]["ty"]
+        return "StoreInfoInstruction" in rt and "Either" in rt
+    passfns = sorted(fx.body.name for fx in ctx.all_fas() if fx.body.name.startswith(MT + "::") and "::tests::" not in fx.body.name and instr_ret(fx) and fx.body.name in node_users)
+    if ctx.crate.name == "hypercore":
+        if not need(ctx, prop, rule, "tree functions that work in passes and look nodes up in memory", passfns):
+            return
+    n = 0
+    driven = set()
+    for fa in ctx.all_fas():
+        nm = fa.body.name
+        if "::tests::" in nm or nm.startswith("tree::merkle_tree::") or instr_ret(fa):
+            continue
+        by_fn = {}
+        for s_, t_ in fa.calls():
+            c = callee_of(t_)
+            if c in passfns:
+                by_fn.setdefault(c, []).append(s_)
+        for c, ss in sorted(by_fn.items()):
+            short = "%s -> %s" % (fn_of(nm).split("::")[-1], c.split("::")[-1])
+            driven.add(c)
+            for s_ in ss:
+                n += 1
+                left = None
+                for b in fa.live():
+                    t = b.term
+                    if t["k"] != "switch":
+                        continue
+                    o = fa.origin_operand(t["discr"], b.i, len(b.stmts))
+                    if o[0] != "disc":
+                        continue
+                    inner = strip(o[1])
+                    if isinstance(inner, tuple) and inner[0] == "call" and s_ in call_root_bb(inner) and callee_of(fa.body.blocks[s_].term) == c and not any(isinstance(x, tuple) and x[0] in ("branch", "poll") for x in subterms(o[1])):
+                        m = {v: x for v, x in t["targets"]}
+                        left = m.get(0, t["otherwise"])
+                which = "%s (call %d of %d)" % (short, ss.index(s_) + 1, len(ss))
+                if left is None:
+                    ctx.missing(prop, rule, "%s: the match on the pass result" % which, "no switch on the Either returned by the call at %s" % loc(fa, s_))
+                    continue
+                reg = region(fa, left, avoiding=set(ss))
+                back = any(x in fa.reach(left, include_src=True) for x in ss)
+                made_up = []
+                for bb, _, t_ in ret_assigns(fa):
+                    if bb not in reg:
+                        continue
+                    tt = strip(t_)
+                    if isinstance(tt, tuple) and tt[0] == "call" and tt[2].endswith("from_residual"):
+                        continue
+                    if is_agg(tt, "Err", "std::result::Result"):
+                        # what `?` builds: Err(err(<a call's result>)), possibly converted
+                        e = strip(agg_field(tt, "0"))
+                        while isinstance(e, tuple) and e[0] == "call" and e[2].split("::")[-1] in ("from", "into") and e[3]:
+                            e = strip(e[3][0])
+                        if isinstance(e, tuple) and e[0] == "err":
+                            continue
+                    made_up.append("%s at %s" % (term_str(t_)[:70], loc(fa, bb)))
+                ctx.check(prop, rule, "%s: a pass that still misses nodes is followed by another read and another pass" % which, back and not made_up,
+                          "Left(instructions) leads back to the call; nothing but `?` leaves the loop",
+                          "%s: after the pass at %s returned read instructions the caller %s — a node that the node cache held in one pass and evicted before the next makes this call fail (or answer) where a core without the cache succeeds" % (
+                              which, loc(fa, s_), ("returns %s instead of reading and asking again" % made_up) if made_up else "never calls the function again"),
+                          [site_desc(fa, s_)], key="%s|%s|%s|passes bounded|%d" % (prop, rule, short, ss.index(s_)))
+    if len(driven) < 7 and ctx.crate.name == "hypercore":
+        ctx.missing(prop, rule, "tree pass functions called from the functions that perform the reads", "found %d: %s (floor 7: byte_range, byte_offset, byte_offset_in_changeset, truncate, create_valueless_proof, verify_proof, missing_nodes)" % (len(driven), sorted(x.split("::")[-1] for x in driven)))
+
+
+def r8(ctx):
+    read_until_complete(ctx, P, "C14.R8")
+
+
+RULES.append(r8)
